@@ -131,7 +131,7 @@ def aggregate(rep, jobs):
 
 
 # ------------------------------------------------------------------------------------- event x watcher matrix
-KINDS = ["min", "max", "both", "ground"]
+KINDS = ["min", "max", "both", "ground", "shave_min", "shave_max"]
 
 
 def event_model(rnd, wtype, kind):
@@ -147,6 +147,19 @@ def event_model(rnd, wtype, kind):
             continue
         i = rnd.choice(cands)
         a, b = box[i]
+        if kind in ("shave_min", "shave_max"):
+            # the mover is the shaving algorithm: a gadget (v = q, v + q >= 2a+1 resp. <= 2b-1) that bound consistency
+            # cannot use but a probe refutes, so that exactly the MIN resp. MAX of v is shaved
+            doms = [list(x) for x in box] + [[a, b]]
+            q = n
+            g = [[[i, q], "affine_eq", [1, -1, 0]],
+                 [[i, q], "affine_geq", [1, 1, 2 * a + 1]] if kind == "shave_min" else
+                 [[i, q], "affine_leq", [1, 1, 2 * b - 1]]]
+            model = {"doms": doms, "idx": list(range(n + 1)), "off": [0] * (n + 1),
+                     "props": [[list(range(n)), wtype, params]] + g}
+            if wtype in ("no_sub_cycle", "scc"):
+                model["props"].insert(1, [list(range(n)), "alldifferent", []])
+            return model, [i, q]
         if kind == "min":
             t = [0, a + 1, 1, b]
         elif kind == "max":
@@ -187,17 +200,23 @@ def run_event_matrix(task):
                 if O.model_points(model) > 20000:
                     continue
                 exp = sorted(O.brute(model))
-                for forced in ((True, False) if MODE == "interp" else (False,)):
-                    spec = {"budget": {}, "fixpoint": {}} if MODE == "interp" else None
+                shave = kind.startswith("shave")
+                for forced in ((True, False) if (MODE == "interp" and not shave) else (False,)):
+                    spec = {"budget": {}, "fixpoint": {"ofix": not shave}} if MODE == "interp" else None
                     if forced:
                         spec["schedule"] = {"seed": rep, "delay_vars": mover}
-                    out = modelrun.run_enum(model, {"calg": "bc", "vh": "first", "dh": "min"}, spec)
+                    if shave and spec is not None:
+                        spec["branch"] = {}
+                    out = modelrun.run_enum(model, {"calg": "shaving" if shave else "bc", "vh": "first", "dh": "min"},
+                                            spec)
                     res["evals"] += 1
                     res["cells"]["%s/%s" % (wtype, kind)] = 1
                     for k, v in out.monitor_counts.items():
                         if isinstance(v, (int, float)) and "max_" not in k and not k.endswith("limit"):
                             res["counters"][k] = res["counters"].get(k, 0) + v
                     fails = [f for f in out.monitor_fails if f["prop"] == "C08"]
+                    fails += [dict(f, prop="C08", kind="shaving:" + f["kind"]) for f in out.monitor_fails
+                              if f["prop"] == "C09" and f["kind"] == "watcher_not_queued_after_shave"]
                     if out.error:
                         fails.append({"prop": "C08", "kind": "event_matrix_run_failed:" + out.error,
                                       "detail": str(out.error_detail)})
@@ -209,7 +228,8 @@ def run_event_matrix(task):
                         c = res["fail_counts"].get(key, 0)
                         res["fail_counts"][key] = c + 1
                         if c < 2:
-                            res["fails"].append(dict(f, model=model, cfg={"calg": "bc", "vh": "first", "dh": "min"},
+                            res["fails"].append(dict(f, model=model, cfg={"calg": "shaving" if shave else "bc",
+                                                                          "vh": "first", "dh": "min"},
                                                      mode=MODE, where="event_matrix:%s:%s:%s" % (
                                                          wtype, kind, "watcher_first" if forced else "engine_order")))
                 res["hashes"].append(hash((wtype, kind, rep, str(model))))
